@@ -1,66 +1,15 @@
 /* Verification unit: hdf/src/dfkswap.c (C06: byte-swapping conversion kernels DFKsb2b/4b/8b)
- *
- * Obligation parameters (obligations/c06_dfconv.py, passed as -D):
- *   SS, DS   constant source/destination stride of the run (0,0 = contiguous path); when they are
- *            not defined the strides are symbolic (bounded stand-in, needs NMAX small)
- *   NMAX     cap on num_elm (only the bounded stand-ins define it)
- */
-#include "h4v.h"
-#include "hdf_priv.h"
-
-#ifdef H4_WORDS_BIGENDIAN
-#error "C06 contracts are written for the little-endian host configuration"
-#endif
-
+ * Ghost state, predicates, domain and harness bodies: stubs/dfconv_common.h */
+#include "dfconv_common.h"
 #include "h4v_err.h" /* trusted stubs: error stack (HEclear, HEpush) */
-
-/* ---- ghost state --------------------------------------------------------------------------
- * g_k   ghost element index: a proof for arbitrary g_k < num_elm is a proof for all elements
- * g_s   the W source bytes of element g_k as they were BEFORE the call (snapshot taken by the
- *       harness, tied to the buffer by `requires`; needed because in place dest == source)
- * g_o   ghost byte offset inside the destination extent, g_ov its value before the call
- *       (bytes in the gaps between strided elements must keep their value)               */
-uint32 g_k;
-uint8  g_s[8];
-size_t g_o;
-uint8  g_ov;
-
-#define B(p) ((uint8 *)(p))
-#define EQ2(p, o, a, b) (B(p)[(o)] == (a) && B(p)[(o) + 1] == (b))
-#define EQ4(p, o, a, b, c, e) (EQ2(p, o, a, b) && EQ2(p, (o) + 2, c, e))
-/* element at byte offset o of p holds the snapshot (SNAP) / the byte-reversed snapshot (SWAP) */
-#define SNAP_2(p, o) EQ2(p, o, g_s[0], g_s[1])
-#define SWAP_2(p, o) EQ2(p, o, g_s[1], g_s[0])
-#define SNAP_4(p, o) EQ4(p, o, g_s[0], g_s[1], g_s[2], g_s[3])
-#define SWAP_4(p, o) EQ4(p, o, g_s[3], g_s[2], g_s[1], g_s[0])
-#define SNAP_8(p, o) (EQ4(p, o, g_s[0], g_s[1], g_s[2], g_s[3]) && EQ4(p, (o) + 4, g_s[4], g_s[5], g_s[6], g_s[7]))
-#define SWAP_8(p, o) (EQ4(p, o, g_s[7], g_s[6], g_s[5], g_s[4]) && EQ4(p, (o) + 4, g_s[3], g_s[2], g_s[1], g_s[0]))
-
-/* effective strides: stride 0/0 means "contiguous", i.e. stride W */
-#define CONTIG (source_stride == 0 && dest_stride == 0)
-#define ESS(W) (CONTIG ? (size_t)(W) : (size_t)source_stride)
-#define EDS(W) (CONTIG ? (size_t)(W) : (size_t)dest_stride)
-/* number of bytes spanned by num_elm (>= 1) elements */
-#define SEXT(W) (ESS(W) * (size_t)(num_elm - 1) + (W))
-#define DEXT(W) (EDS(W) * (size_t)(num_elm - 1) + (W))
-
-/* Domain: the callers (DFKconvert from SD/GR with 0/0, the Vdata layer with record sizes) pass
-   either 0/0 or two strides that are at least the element width; in place only with equal
-   strides (in-place expansion would overwrite elements not yet read); out of place the two
-   buffers are distinct objects. */
-#define SB_DOMAIN(W)                                                                                 \
-    (s != NULL && d != NULL && (CONTIG || (source_stride >= (W) && dest_stride >= (W))) &&           \
-     (s != d || source_stride == dest_stride))
-/* ghosts are in range (only meaningful when there is at least one element) */
-#define SB_GHOSTS(W) (num_elm == 0 || (g_k < num_elm && g_o < DEXT(W)))
 
 #include "dfkswap.c"
 
 /* ---------------- contracts (taken from the C06 statement) ---------------- */
 int DFKsb2b(void *s, void *d, uint32 num_elm, uint32 source_stride, uint32 dest_stride)
-    __CPROVER_requires(SB_DOMAIN(2))
-    __CPROVER_requires(s == d || !__CPROVER_same_object(s, d))
-    __CPROVER_requires(SB_GHOSTS(2))
+    __CPROVER_requires(DFK_DOMAIN(2))
+    __CPROVER_requires(num_elm == 0 || s == d || !__CPROVER_same_object(s, d))
+    __CPROVER_requires(DFK_GHOSTS(2))
     __CPROVER_requires(num_elm == 0 || (SNAP_2(s, ESS(2) * g_k) && B(d)[g_o] == g_ov))
     __CPROVER_assigns(num_elm >= 1 && CONTIG: __CPROVER_object_upto(B(d), 2 * (size_t)num_elm);
                       num_elm >= 1 && !CONTIG: __CPROVER_object_upto(B(d), (size_t)dest_stride * (size_t)(num_elm - 1) + 2))
@@ -69,29 +18,35 @@ int DFKsb2b(void *s, void *d, uint32 num_elm, uint32 source_stride, uint32 dest_
     /* every element of the destination is the byte-reversed source element */
     __CPROVER_ensures(num_elm >= 1 ==> SWAP_2(d, EDS(2) * g_k))
     /* bytes between strided destination elements keep their value */
-    __CPROVER_ensures((num_elm >= 1 && g_o % EDS(2) >= 2) ==> B(d)[g_o] == g_ov);
+    __CPROVER_ensures(DFK_IN_GAP(2) ==> B(d)[g_o] == g_ov);
 
 int DFKsb4b(void *s, void *d, uint32 num_elm, uint32 source_stride, uint32 dest_stride)
-    __CPROVER_requires(SB_DOMAIN(4))
-    __CPROVER_requires(s == d || !__CPROVER_same_object(s, d))
-    __CPROVER_requires(SB_GHOSTS(4))
+    __CPROVER_requires(DFK_DOMAIN(4))
+    __CPROVER_requires(num_elm == 0 || s == d || !__CPROVER_same_object(s, d))
+    __CPROVER_requires(DFK_GHOSTS(4))
     __CPROVER_requires(num_elm == 0 || (SNAP_4(s, ESS(4) * g_k) && B(d)[g_o] == g_ov))
     __CPROVER_assigns(num_elm >= 1 && CONTIG: __CPROVER_object_upto(B(d), 4 * (size_t)num_elm);
                       num_elm >= 1 && !CONTIG: __CPROVER_object_upto(B(d), (size_t)dest_stride * (size_t)(num_elm - 1) + 4))
+    /* no elements is an error, anything else succeeds */
     __CPROVER_ensures(num_elm == 0 ? __CPROVER_return_value == FAIL : __CPROVER_return_value == SUCCEED)
+    /* every element of the destination is the byte-reversed source element */
     __CPROVER_ensures(num_elm >= 1 ==> SWAP_4(d, EDS(4) * g_k))
-    __CPROVER_ensures((num_elm >= 1 && g_o % EDS(4) >= 4) ==> B(d)[g_o] == g_ov);
+    /* bytes between strided destination elements keep their value */
+    __CPROVER_ensures(DFK_IN_GAP(4) ==> B(d)[g_o] == g_ov);
 
 int DFKsb8b(void *s, void *d, uint32 num_elm, uint32 source_stride, uint32 dest_stride)
-    __CPROVER_requires(SB_DOMAIN(8))
-    __CPROVER_requires(s == d || !__CPROVER_same_object(s, d))
-    __CPROVER_requires(SB_GHOSTS(8))
+    __CPROVER_requires(DFK_DOMAIN(8))
+    __CPROVER_requires(num_elm == 0 || s == d || !__CPROVER_same_object(s, d))
+    __CPROVER_requires(DFK_GHOSTS(8))
     __CPROVER_requires(num_elm == 0 || (SNAP_8(s, ESS(8) * g_k) && B(d)[g_o] == g_ov))
     __CPROVER_assigns(num_elm >= 1 && CONTIG: __CPROVER_object_upto(B(d), 8 * (size_t)num_elm);
                       num_elm >= 1 && !CONTIG: __CPROVER_object_upto(B(d), (size_t)dest_stride * (size_t)(num_elm - 1) + 8))
+    /* no elements is an error, anything else succeeds */
     __CPROVER_ensures(num_elm == 0 ? __CPROVER_return_value == FAIL : __CPROVER_return_value == SUCCEED)
+    /* every element of the destination is the byte-reversed source element */
     __CPROVER_ensures(num_elm >= 1 ==> SWAP_8(d, EDS(8) * g_k))
-    __CPROVER_ensures((num_elm >= 1 && g_o % EDS(8) >= 8) ==> B(d)[g_o] == g_ov);
+    /* bytes between strided destination elements keep their value */
+    __CPROVER_ensures(DFK_IN_GAP(8) ==> B(d)[g_o] == g_ov);
 
 #ifdef H4V_NATIVE
 #include "h4v_native_wrap.h"
@@ -103,78 +58,69 @@ H4V_DECL_ND(uint8);
 H4V_DECL_ND(int);
 H4V_DECL_ND(size_t);
 
-#ifndef NMAX
-#define NMAX 0xffffffffu
-#endif
-#ifndef CAPB
-#define CAPB 48 /* bytes per buffer in counterexample mode */
-#endif
-
-#define SNAPSHOT_2(p, o) (g_s[0] = (p)[(o)], g_s[1] = (p)[(o) + 1])
-#define SNAPSHOT_4(p, o) (SNAPSHOT_2(p, o), g_s[2] = (p)[(o) + 2], g_s[3] = (p)[(o) + 3])
-#define SNAPSHOT_8(p, o)                                                                             \
-    (SNAPSHOT_4(p, o), g_s[4] = (p)[(o) + 4], g_s[5] = (p)[(o) + 5], g_s[6] = (p)[(o) + 6], g_s[7] = (p)[(o) + 7])
-
-/* Environment for one call of FN (width W): tight buffers (exactly the bytes the strides span, so
-   any access beyond the last element is out of bounds), in place or out of place. */
-#if defined(SS) && defined(DS)
-#define GET_STRIDES(W)                                                                               \
-    uint32 source_stride = (SS), dest_stride = (DS)
-#else
-#define GET_STRIDES(W)                                                                               \
-    H4V_ND(uint32, source_stride);                                                                   \
-    H4V_ND(uint32, dest_stride);                                                                     \
-    H4V_ASSUME(source_stride >= (W) && source_stride <= 65535 && dest_stride >= (W) && dest_stride <= 65535)
-#endif
-
-#define SB_HARNESS(FN, W)                                                                            \
-    H4V_ND(uint32, num_elm);                                                                         \
-    GET_STRIDES(W);                                                                                  \
-    H4V_ND(int, in_place);                                                                           \
-    H4V_ASSUME(num_elm <= NMAX);                                                                     \
-    H4V_ASSUME(!in_place || source_stride == dest_stride);                                           \
-    size_t sbytes = num_elm == 0 ? 1 : SEXT(W);                                                      \
-    size_t dbytes = num_elm == 0 ? 1 : DEXT(W);                                                      \
-    H4V_ND_BUF(uint8, src, sbytes, CAPB);                                                            \
-    H4V_ND_BUF(uint8, dst, dbytes, CAPB);                                                            \
-    uint8 *d = in_place ? src : dst;                                                                 \
-    H4V_HAVOC(uint32, g_k);                                                                          \
-    H4V_HAVOC(size_t, g_o);                                                                          \
-    if (num_elm >= 1) {                                                                              \
-        H4V_ASSUME(g_k < num_elm && g_o < dbytes);                                                   \
-        SNAPSHOT_##W(src, ESS(W) * g_k);                                                             \
-        g_ov = d[g_o];                                                                               \
-    }                                                                                                \
-    int r = FN(src, d, num_elm, source_stride, dest_stride);                                         \
-    H4V_COVER(r == SUCCEED && !in_place, #FN " out-of-place path");                                  \
-    H4V_COVER(r == SUCCEED && in_place, #FN " in-place path");                                       \
-    H4V_COVER(r == SUCCEED && num_elm > 2 && g_k == num_elm - 1, #FN " last element");               \
-    H4V_COVER(r == FAIL, #FN " no elements");                                                        \
-    H4V_CANARY(#FN " end")
-
 void
 h_sb2b(void)
 {
-    SB_HARNESS(DFKsb2b, 2);
+    DFK_HARNESS(DFKsb2b, 2);
+}
+
+void
+h_sb2b_zero(void)
+{
+    DFK_ZERO_HARNESS(DFKsb2b, 2);
+}
+
+void
+h_sb2b_one(void)
+{
+    DFK_ONE_HARNESS(DFKsb2b, 2);
 }
 
 void
 h_sb4b(void)
 {
-    SB_HARNESS(DFKsb4b, 4);
+    DFK_HARNESS(DFKsb4b, 4);
+}
+
+void
+h_sb4b_zero(void)
+{
+    DFK_ZERO_HARNESS(DFKsb4b, 4);
+}
+
+void
+h_sb4b_one(void)
+{
+    DFK_ONE_HARNESS(DFKsb4b, 4);
 }
 
 void
 h_sb8b(void)
 {
-    SB_HARNESS(DFKsb8b, 8);
+    DFK_HARNESS(DFKsb8b, 8);
+}
+
+void
+h_sb8b_zero(void)
+{
+    DFK_ZERO_HARNESS(DFKsb8b, 8);
+}
+
+void
+h_sb8b_one(void)
+{
+    DFK_ONE_HARNESS(DFKsb8b, 8);
 }
 
 /* Involution lemma on one element: swapping twice gives the original bit pattern, so numin after
    numout (and numout after numin) is the identity for every swapped type; both ways of calling
-   (between buffers, in place). */
+   (between buffers, in place) agree. */
+#define AGREE_2(p, q) EQ2(p, 0, (q)[0], (q)[1])
+#define AGREE_4(p, q) EQ4(p, 0, (q)[0], (q)[1], (q)[2], (q)[3])
+#define AGREE_8(p, q) (AGREE_4(p, q) && EQ4(p, 4, (q)[4], (q)[5], (q)[6], (q)[7]))
 #define INVOL_HARNESS(FN, W)                                                                         \
-    GET_STRIDES(W);                                                                                  \
+    H4V_ND(uint32, source_stride);                                                                   \
+    H4V_ND(uint32, dest_stride);                                                                     \
     H4V_ND_BUF(uint8, a, W, 8);                                                                      \
     H4V_ND_BUF(uint8, b, W, 8);                                                                      \
     H4V_ND_BUF(uint8, c, W, 8);                                                                      \
@@ -182,12 +128,12 @@ h_sb8b(void)
     int r1 = FN(a, b, 1, source_stride, dest_stride);                                                \
     int r2 = FN(b, c, 1, source_stride, dest_stride);                                                \
     H4V_CHECK(r1 == SUCCEED && r2 == SUCCEED, #FN " twice succeeds");                                \
+    H4V_CHECK(SWAP_##W(b, 0), #FN " reverses the bytes");                                            \
     H4V_CHECK(SNAP_##W(c, 0), #FN " twice between buffers is the identity");                         \
-    H4V_CHECK(SNAP_##W(a, 0), #FN " source untouched");                                              \
-    int r3 = FN(a, a, 1, source_stride, source_stride);                                              \
-    H4V_CHECK(r3 == SUCCEED && SWAP_##W(a, 0), #FN " in place reverses the bytes");                  \
-    H4V_CHECK(EQ2(a, 0, b[0], b[1]), #FN " in place and between buffers agree");                     \
-    int r4 = FN(a, a, 1, source_stride, source_stride);                                              \
+    H4V_CHECK(SNAP_##W(a, 0), #FN " leaves the source untouched");                                   \
+    int r3 = FN(a, a, 1, source_stride, dest_stride);                                                \
+    H4V_CHECK(r3 == SUCCEED && AGREE_##W(a, b), #FN " in place and between buffers agree");          \
+    int r4 = FN(a, a, 1, source_stride, dest_stride);                                                \
     H4V_CHECK(r4 == SUCCEED && SNAP_##W(a, 0), #FN " twice in place is the identity");               \
     H4V_CANARY(#FN " involution end")
 
